@@ -148,4 +148,134 @@ theorem emitVoice_sorted (nStaves v : Nat) (ns : List NoteIn)
       · have := hhead p hp; omega
       · exact hrest p hp
 
+/-! ### a whole segment -/
+
+theorem voiceWF_nil (s : Segment) : VoiceWF s [] := by
+  simp [VoiceWF]
+
+theorem mem_segVoices {s : Segment} {vn : Nat × List NoteIn} (h : vn ∈ segVoices s) :
+    vn ∈ assignVoices s.notes ∨ vn = (0, []) := by
+  unfold segVoices at h
+  simp only at h
+  split at h
+  · simp at h; exact Or.inr h
+  · exact Or.inl (mem_isortBy.mp h)
+
+/-- the conditions of `run_mergeVoices` hold for the voices of a well-formed segment -/
+theorem segPlaced_ok (mstart nStaves : Nat) (s : Segment) (hwf : SegWF mstart s) :
+    ∀ v ∈ segPlaced nStaves s, (∀ p ∈ v.2, PlacedOK mstart s.stop p) ∧ OnsetSorted v.2 ∧ ChordOKP none v.2 := by
+  obtain ⟨hms, hss, _, _, hvoices⟩ := hwf
+  intro v hv
+  unfold segPlaced at hv
+  obtain ⟨vn, hvn, rfl⟩ := List.mem_map.mp hv
+  have hvwf : VoiceWF s vn.2 := by
+    rcases mem_segVoices hvn with h | h
+    · exact hvoices vn h
+    · rw [h]; exact voiceWF_nil s
+  obtain ⟨hnotes, _⟩ := hvwf
+  have hnotes' : ∀ n ∈ sortVoice vn.2, s.start ≤ n.onset ∧ n.onset + n.dur ≤ s.stop ∧ (n.grace = true → n.dur = 0) ∧
+      ∀ g ∈ n.seq, g.onset = n.onset := fun n hn => hnotes n (mem_sortVoice.mp hn)
+  have hE := emitVoice_forall nStaves vn.1 (sortVoice vn.2) s.start s.stop hnotes'
+  have hEs := (emitVoice_sorted nStaves vn.1 (sortVoice vn.2) (sortVoice_sorted vn.2)
+    (fun n hn => ⟨(hnotes' n hn).2.2.1, (hnotes' n hn).2.2.2⟩)).1
+  refine ⟨?_, ?_, ?_⟩
+  · intro p hp
+    have := tagChords_forall (fun o d g => s.start ≤ o ∧ o + d ≤ s.stop ∧ (g = true → d = 0)) _ none hE p hp
+    exact ⟨by omega, this.2.1, this.2.2⟩
+  · rw [onsetSorted_iff, tagChords_onsets, ← onsetSorted_iff]; exact hEs
+  · exact tagChords_chordOK _ none none (Or.inl rfl)
+
+theorem mergeMeasure_eq (voices : List (Nat × List Placed)) (other : List OtherIn) (start stop : Nat) :
+    mergeMeasure voices other start stop =
+      (mergeVoices other start true start voices).1 ++
+        (if (mergeVoices other start true start voices).2 < stop
+          then [Ev.forward (stop - (mergeVoices other start true start voices).2)] else []) := rfl
+
+/-- what a segment must read back as: its voices one after the other, each in document order -/
+def segOut (nStaves : Nat) (s : Segment) : List NoteOut :=
+  ((segPlaced nStaves s).flatMap (·.2)).map Placed.out
+
+/-- reading a well-formed segment from its start: the notes come back where they are, and the reader ends
+    at the end of the segment, which is also the furthest position it has seen -/
+theorem run_segment (spec : Bool) (mstart nStaves : Nat) (seg : Segment) (hwf : SegWF mstart seg) (s : RState)
+    (hpos : s.pos = seg.start) (hle : s.pos ≤ s.maxt) (hB : s.maxt ≤ seg.stop) :
+    ∃ s', runEvs spec mstart s (linearizeSegment nStaves seg) = some s' ∧
+      s'.out = (segOut nStaves seg).reverse ++ s.out ∧ s'.pos = seg.stop ∧ s'.maxt = seg.stop := by
+  have hok := segPlaced_ok mstart nStaves seg hwf
+  obtain ⟨hms, hss, _, hothers, _⟩ := hwf
+  have hO : ∀ o ∈ seg.others, OtherOK mstart seg.stop o := by
+    intro o ho
+    obtain ⟨h1, h2, h3⟩ := hothers o ho
+    exact ⟨by omega, h2, h3⟩
+  obtain ⟨s1, hrun, hout, hp, hle1, hB1, hmax1, hst1⟩ :=
+    run_mergeVoices spec mstart seg.stop seg.start seg.others hO hms hss (segPlaced nStaves seg) true seg.start s
+      hok hpos hle hB hms
+  unfold linearizeSegment
+  rw [mergeMeasure_eq, runEvs_append, hrun]
+  simp only [Option.bind_some]
+  rw [← hp]
+  by_cases hlt : s1.pos < seg.stop
+  · simp only [hlt, if_true, runEvs, stepEv, Option.bind_some]
+    refine ⟨_, rfl, ?_, ?_, ?_⟩
+    · simp only [hout, segOut, toOut]
+    · simp only; omega
+    · simp only; omega
+  · simp only [hlt, if_false, runEvs]
+    exact ⟨s1, rfl, by simp only [hout, segOut, toOut], by omega, by omega⟩
+
+/-! ### a whole measure -/
+
+theorem run_segments (spec : Bool) (mstart nStaves : Nat) :
+    ∀ (segs : List Segment) (s : RState), Chained segs → (∀ seg ∈ segs, SegWF mstart seg) →
+      (∀ seg ∈ segs.head?, s.pos = seg.start ∧ s.maxt = seg.start) →
+      ∃ s', runEvs spec mstart s (segs.flatMap (linearizeSegment nStaves)) = some s' ∧
+        s'.out = (segs.flatMap (segOut nStaves)).reverse ++ s.out ∧
+        (∀ seg ∈ segs.getLast?, s'.pos = seg.stop ∧ s'.maxt = seg.stop) := by
+  intro segs
+  induction segs with
+  | nil => intro s _ _ _; exact ⟨s, by simp [runEvs], by simp, by simp⟩
+  | cons seg rest ih =>
+    intro s hch hwf hstart
+    obtain ⟨hpos, hmax⟩ := hstart seg (by simp)
+    have hsegwf := hwf seg (List.mem_cons_self ..)
+    obtain ⟨s1, hrun1, hout1, hp1, hm1⟩ :=
+      run_segment spec mstart nStaves seg hsegwf s hpos (by omega) (by have := hsegwf.2.1; omega)
+    cases rest with
+    | nil =>
+      refine ⟨s1, by simpa using hrun1, by simpa using hout1, ?_⟩
+      intro sg hsg
+      simp at hsg; subst hsg
+      exact ⟨hp1, hm1⟩
+    | cons seg2 rest' =>
+      obtain ⟨hmeet, hch'⟩ : seg.stop = seg2.start ∧ Chained (seg2 :: rest') := hch
+      obtain ⟨s', hrun, hout, hlast⟩ := ih s1 hch' (fun sg h => hwf sg (List.mem_cons_of_mem _ h))
+        (by intro sg hsg; simp at hsg; subst hsg; exact ⟨by omega, by omega⟩)
+      refine ⟨s', ?_, ?_, ?_⟩
+      · rw [List.flatMap_cons, runEvs_append, hrun1]; exact hrun
+      · rw [hout, hout1]; simp [List.flatMap_cons]
+      · intro sg hsg
+        apply hlast sg
+        simpa [List.getLast?_cons_cons] using hsg
+
+/-- what a measure must read back as -/
+def measureOut (m : MeasureContent) : List NoteOut := m.segs.flatMap (segOut m.nStaves)
+
+theorem interpret_linearize (spec : Bool) (m : MeasureContent) (hwf : MeasureWF m) :
+    interpretWith spec m.start (linearize m) = some (measureOut m, m.stop) := by
+  obtain ⟨hne, hch, hsegs⟩ := hwf
+  obtain ⟨seg0, rest, hsegs0⟩ := List.exists_cons_of_ne_nil hne
+  have hstart : m.start = seg0.start := by simp [MeasureContent.start, hsegs0]
+  obtain ⟨s', hrun, hout, hlast⟩ :=
+    run_segments spec m.start m.nStaves m.segs { pos := m.start, prev := none, maxt := m.start, out := [] } hch hsegs
+      (by intro sg hsg; rw [hsegs0] at hsg; simp at hsg; subst hsg; exact ⟨hstart, hstart⟩)
+  unfold interpretWith linearize
+  rw [hrun]
+  simp only [Option.map_some, Option.some.injEq, Prod.mk.injEq]
+  constructor
+  · rw [hout]; simp [measureOut]
+  · unfold MeasureContent.stop
+    cases hl : m.segs.getLast? with
+    | none => rw [List.getLast?_eq_none_iff] at hl; exact absurd hl hne
+    | some sg => exact (hlast sg hl).2
+
 end C03.Main
